@@ -395,6 +395,26 @@ example : ∃ g, (∃ nc, writeField {} exField2GM = .ok nc ∧ readFile nc = [g
   obtain ⟨g, hr, he⟩ := C01_roundtripB_partial {} rfl exField2GM (by decide) (by decide) nc hw hf hk
   exact ⟨g, ⟨nc, hw, hr⟩, he⟩
 
+/-- `exField2GM` with a vertical datum that neither grid mapping has: the writer stores it in a grid
+mapping variable of its own (`latitude_longitude: z` in the `grid_mapping` attribute). -/
+def exVDatumAlone : MField :=
+  { exField2GM with refs := exField2GM.refs.map (fun kr =>
+      if kr.1 == "coordinatereference2" then (kr.1, { kr.2 with datum := [("semi_major_axis", "v6378137")] }) else kr) }
+
+/-- The reader as it is does not record that variable as referenced by the data variable (it does so
+only for a grid mapping that becomes a coordinate reference): the variable is read as a second field.
+With fixes/C01-vertical-datum-grid-mapping-referenced.patch one field is read.  Finding
+`vertical-datum-grid-mapping-variable-read-as-field`.  (The field is outside `WFFieldB` all the same:
+the datum comes back, but on a vertical reference only — CF has no place for it — see
+`vertical-datum-without-matching-grid-mapping-adds-coordinate-reference`.) -/
+theorem C01_vertical_datum_gm_old_code_counterexample :
+    (match writeField {} exVDatumAlone with
+     | .ok nc => (nc.gridMapping, (readFile nc).map (fun (g : MField) => g.ncvar), (readFileOld nc).map (fun (g : MField) => g.ncvar))
+     | .error _ => ([], [], []))
+      = ([("ta", [("rotated_pole", ["x", "y"]), ("crs", ["lat", "lon"]), ("latitude_longitude", ["z"])])],
+         [some "ta"], [some "latitude_longitude", some "ta"]) := by
+  decide +kernel
+
 /-! ### What `WFField` excludes: witnesses on the model (each reproduced on cfdm, see known_findings.json) -/
 
 /-- What comes back, reduced to what the witnesses look at: per field the number of data axes, the
